@@ -73,7 +73,7 @@ CLAIMS["C05"] = ("rounding-direction classification of Dec->Int conversions, ove
     "Thin claim: decides only named structural necessary conditions of matching: buyers' quote payment is rounded up and sellers' receipt down in FillOrder, every order mutation sits behind amt <= MatchableAmount, remaining-amount accumulators of the distribution loops decrease from themselves, an order stays matched only if it is a buy or its share is worth a positive quote amount, and ApplyMatchResult moves the orders' own paid/received amounts and the computed dust. NOT covered (the bulk of the property): conservation over arbitrary books, the price search, pro-rata remainders, limit-price respect.",
     "DESIGN.md §3 C05")
 CLAIMS["C06"] = ("rounding-direction classification over the whole computation chain, entry-test shape rule, amount provenance",
-    "Thin claim: decides only that amm.Deposit rounds the minted shares down at every inexact step and the accepted coins up, that amm.Withdraw rounds down and tests the last-share case first returning the reserves, and that the executors mint, accept, pay out and burn exactly the values those functions returned. NOT covered: the fairness inequality, the 1e-17 bound, ranged-pool translation and price range (a seeded change there is missed, see DESIGN.md).",
+    "Thin claim: decides only that amm.Deposit rounds the minted shares down at every inexact step and the accepted coins up, that amm.Withdraw rounds down and tests the last-share case first returning the reserves, and that the executors mint, accept, pay out and burn exactly the values those functions returned. Also: in the amm package the branch taken for an empty reserve and the branch taken when its ratio to the other reserve rounds to zero choose the same price bound (sibling agreement). NOT covered: the fairness inequality, the 1e-17 bound, the numeric content of the ranged-pool translation and price range.",
     "DESIGN.md §3 C06")
 CLAIMS["C10"] = ("clip-guard rules, price/amount provenance, settlement-set presence, sibling field-set rule for restarts",
     "Thin claim: decides that bids are clipped against the stored remaining collateral/debt, that V2 conversions use the auction's stored price and the oracle/CMST price and the reserve top-up uses the auction's current remaining debt, that the closing settlement contains burn, penalty-to-collector with net-fee increase and totals reduction, and that a restart refreshes initial/current/end price and end time together. NOT covered: totals over bid sequences, monotone price between restarts, one-unit rounding; the missing price checks of the V2 bid path are C14's known findings.",
@@ -85,15 +85,16 @@ CLAIMS["C19"] = ("site guards on payouts (comparison strictness), post-payout mu
 
 # repository-wide rules instantiated from the code itself (generic.go, recordlink.go), scoped per property
 GENERIC = {
+    "C06": " Also: the denomination-linkage and execute-once rules of the liquidity module (foreign shares redeemed against a pool, or a deposit executed twice, change the reserves per share).",
     "C02": " Also: counter provenance (a vault stored under a fresh id takes it from the vault counter read in the same function, and that id is what is stored back as the counter), and the stable-mint handlers book on the stable vault of the product the message names.",
     "C01": " Also (repository-wide rules scoped to the vault module): identifier-kind agreement at every keeper call, no stale copy for every Get/Set accessor pair, outside the handlers a vault is credited only by an amount moved into vault custody in the same function (auction settlement under shutdown), and records loaded under independent message ids are tied by an equality test before a coin-moving handler can succeed. Also: counter provenance for vault ids.",
     "C03": " Also: records loaded under independent message ids (product and vault) are tied by an equality test, so the limits applied are those of the vault's own product. Also: in/out scale agreement and price discipline in the vault and market modules (a failed or inactive price is an error, never a default value).",
-    "C04": " Also (liquidity module): identifier-kind agreement at every keeper call and no stale copy for every Get/Set accessor pair.",
-    "C07": " Also: paired writers (an order id is indexed only together with storing the order).",
+    "C04": " Also (liquidity module): identifier-kind agreement at every keeper call and no stale copy for every Get/Set accessor pair. Also: a message naming a pool and carrying one coin cannot succeed without the denomination equality with the pool's share denomination; a stored request reaches its executor only behind Status == NotExecuted or when just recorded.",
+    "C07": " Also: paired writers (an order id is indexed only together with storing the order). Also: identifier kinds through record constructors and field-by-field record fills (an app id stored as the pair id of the market-making order index).",
     "C08": " Also: paired writers mined from the repository and frozen (a new borrow id only with the stored borrow, its entry in the lend position's open-borrow list and the totals update; a removed borrow leaves every index); the LTV check of a draw covers principal and accrued interest. Also (lend module): identifier-kind agreement at every keeper call, no stale copy for every Get/Set accessor pair, and borrow totals follow the change applied to the recorded principal when the function changes it. Also: counter provenance for lend/borrow ids.",
     "C09": " Also (liquidation modules): identifier-kind agreement at every keeper call and no stale copy for every Get/Set accessor pair. Also: each sweep reads and stores its cursor under its own key (own prefix, swept app), no two sweeps share a key; a lend position is deleted only under the AmountIn <= 0 test of its own record.",
     "C10": " Also (auction modules): identifier-kind agreement at every keeper call and no stale copy for every Get/Set accessor pair. Also: the elapsed time of the price path is measured from the auction record's own StartTime at all three update sites; at a v1 close the penalty sent to the collector is the collected inflow less the burnt principal.",
-    "C11": " Also: the minimum bid step is rounded up; a deleted limit-bid deposit leaves the recorded total (paired writers). Also (auction modules): identifier-kind agreement at every keeper call and no stale copy for every Get/Set accessor pair.",
+    "C11": " Also: the minimum bid step is rounded up; a deleted limit-bid deposit leaves the recorded total (paired writers). Also (auction modules): identifier-kind agreement at every keeper call and no stale copy for every Get/Set accessor pair. Also: in the automatic fill each reduction of the recorded limit-bid total equals the change of the depositor's record on the same path.",
     "C13": " Also: identifier-kind agreement and generic stale-copy rule for locker and collector, per-asset books receive the amount of the same side (sold lot / raised asset) of the auction record as the asset id they are keyed by, and locker handlers tie the records loaded under independent message ids. Also: UpdateCollector raises the net fees by the sum of exactly the fee amounts handed in; counter provenance for locker ids.",
     "C14": " Also: the failure branch of a price/ratio helper cannot reach a success exit; every call into the esm and market keepers passes ids of the kind the callee names (the breaker is not looked up under an asset id); vault/locker/lend handlers tie the records loaded under independent message ids (the breaker's app is the position's app). Also: a sweep that consults the breaker of the app it sweeps seizes only vaults tied to that app.",
     "C19": " Also (rewards module): identifier-kind agreement at every keeper call.",
